@@ -336,6 +336,14 @@ impl ZReorderMap {
         // Sequence: read var_uint for length
         self.seq_length = self.read_var_uint()?;
 
+        // A run always covers at least one element; a zero length would underflow the
+        // countdown in `next()`
+        if self.seq_length == 0 {
+            return Err(ZiporaError::invalid_data(
+                "ZReorderMap: zero-length sequence"
+            ));
+        }
+
         // Validate position after var_uint read
         if self.pos > self.mmap.len() {
             return Err(ZiporaError::invalid_data(
